@@ -1,4 +1,5 @@
 import KyupyVerif.Model.TextLex
+import KyupyVerif.Model.Def
 /-! # Text level of `kyupy.def_file`: the lark grammar of `def_file.py` as a scanner + recursive-descent reader (C20)
 
 `parseTree : List Char → Option DefFile` reads the language that `Lark(GRAMMAR, parser="lalr")` of `def_file.py`
@@ -959,6 +960,38 @@ def parseDefL (cs : List Char) : Option DefFile :=
   | none => none
 
 def parseDef (s : String) : Option DefFile := parseDefL s.toList
+
+/-! ## hand-over to the routing model `KV.Def` (Model/Def.lean): the `DefWire` records of a net's ROUTED statement -/
+def natOf (t : Txt) : Nat := t.foldl (fun acc c => 10 * acc + (c.toNat - '0'.toNat)) 0
+/-- `int()` of a NUMBER / SIGNED_NUMBER token -/
+def intOf (t : Txt) : Int :=
+  match t with
+  | c :: r => if c = '-' then -(natOf r : Int) else if c = '+' then (natOf r : Int) else (natOf t : Int)
+  | [] => 0
+
+def TPoint.toR (p : TPoint) : KV.Def.RPt := ⟨p.x.map intOf, p.y.map intOf, p.ext.map intOf⟩
+
+/-- `sppoints_via`: `(name, None)` / `(name, do_step)`; `points_via`: `(name, 'N')` / `(name, orientation)` -/
+def TItem.toItem (sp : Bool) : TItem → KV.Def.Item
+  | .pt p => .pt p.toR
+  | .via v o => .via (String.ofList v) (if sp then none else some (String.ofList (o.getD ['N'])))
+  | .arr v d => .arr (String.ofList v) (natOf d.nx) (natOf d.ny) (intOf d.dx) (intOf d.dy)
+
+def TWire.toWire (sp : Bool) (w : TWire) : KV.Def.Wire :=
+  ⟨String.ofList w.layer, w.width.map natOf, w.start.toR, w.rest.map (TItem.toItem sp)⟩
+
+/-- `dnet.routed`: the wires of the LAST `+ ROUTED` statement (`setattr` overwrites); `none` = no such statement -/
+def TNet.routed (sp : Bool) (n : TNet) : Option (List KV.Def.Wire) :=
+  (n.parts.filterMap fun | .wiring .Routed ws => some (ws.map (TWire.toWire sp)) | _ => none).getLast?
+
+/-- all nets of the file in file order: (special?, name, routed wires) -/
+def DefFile.netsRouted (f : DefFile) : List (Bool × Txt × Option (List KV.Def.Wire)) :=
+  f.stmts.flatMap fun
+    | .design _ ss => ss.flatMap fun
+      | .spnets _ ns => ns.map fun n => (true, n.name, n.routed true)
+      | .nets _ ns => ns.map fun n => (false, n.name, n.routed false)
+      | _ => []
+    | _ => []
 
 /-! ## canonical printer: the token list of a tree, every token preceded by one blank -/
 abbrev K (k : Kw) : Txt := k.chars
